@@ -7,13 +7,18 @@
    text, \verb and verbatim bodies, comments, macro names, special sequences
    alike), so a replaced special sequence sits at its first character; and
    get_txt_pos reports, for every character of such a token, the offset at
-   which the source holds that character.  Not proved: that the expander
+   which the source holds that character.  End to end through the main loop
+   of the expander, for every document of plain text, undeclared control
+   words, comments, braces and pass-through macros with braced arguments
+   nested to any depth (C02_text_keeps_its_place): the text tokens leave the
+   expander as the scanner made them -- same character, same position, same
+   order -- and nothing else of visible text is in the output.  Not proved: that the expander
    moves copied tokens without changing position or text (arguments of
    macros, \text in maths, footnotes); tied by the correspondence run and
    the copy oracle of harness/props/c02.py on every generated case. *)
 From Coq Require Import String.
-From YV Require Import PyBase ShellMap Token Utils Scanner PState TokOk ScanFaithful
-                       SpecialsProofs Catalogue.
+From YV Require Import PyBase CharTables ShellMap Token Utils Scanner Rpal PState Exec TokOk
+                       ScanFaithful SpecialsProofs RpalProofs ExecPlain ExecUnk ExecArgs Catalogue.
 Open Scope Z_scope.
 
 (* (1) every scanner token is pinned (an error mark) or a copy of the source
@@ -55,6 +60,36 @@ Theorem C02_special_replacement_position : forall T rd rec fuel st t b env_stop 
   rec (TSeq b env_stop (mk KText (pos t) v (pfix t) :: ActionT (pos t) :: rout)) st.
 Proof. exact step_seq_special. Qed.
 Print Assumptions C02_special_replacement_position.
+
+(* (4) end to end for the class of documents described above *)
+Theorem C02_text_keeps_its_place : forall rd fuel toks st st' out,
+  bcl py_tables (macros st) toks ->
+  exec py_tables rd fuel (TSeq toks None []) st = Ok (st', ASeq out []) ->
+  filter (solid py_isspace) out = texts toks.
+Proof.
+  exact (fun rd fuel toks st st' out =>
+           exec_args_positions py_tables rd (eq_refl true) (fun c => eq_refl)
+                               fuel toks st st' out (eq_refl true)).
+Qed.
+Print Assumptions C02_text_keeps_its_place.
+
+(* a document of the class: text in the argument of a user macro that passes
+   its argument on, an undeclared macro with a group, a closing brace on a
+   line of its own *)
+Example C02_class_example :
+  let um := {| m_name := s2l "\um"; m_args := [AMand];
+               m_repl := RToks [mk (KArg 1) 0 (s2l "#1") false];
+               m_defaults := []; m_extract := [] |} in
+  let st0 := upd_macros (Exec.init_state py_tables (s2l "en") false false true)
+                        [(s2l "\um", um)] in
+  let toks := fst (scan (t_scan py_tables) (s2l "a \um{b \foo{c}
+} d")) in
+  match exec py_tables (fun _ => None) 200 (TSeq toks None []) st0 with
+  | Ok (st', ASeq out _) =>
+      Some (map (fun t => (txt t, pos t)) (filter (solid py_isspace) out), unknowns st')
+  | _ => None end
+  = Some ([([97]%N, 0); ([98]%N, 6); ([99]%N, 13); ([100]%N, 18)], [s2l "\foo"]).
+Proof. vm_compute. reflexivity. Qed.
 
 (* the hypotheses are met: scanner and get_txt_pos on a small document *)
 Example C02_nonvacuous :
